@@ -1,6 +1,6 @@
 // C13 correspondence harness: Thread start/join, parallel_for, ThreadGroup, parallel_invoke, Semaphore, Condition.
 //   pfrow <i0> <nth> <lo> <hi>        parallel_for(i0, i1, f, nth) for every i1 in [lo,hi]: which indices ran, how often, grouped by thread
-//   thr <kind> <n> <reps>              kind: sub lam grp inv cpy cpd cpj  -> ran counts and finished() after join, worst over reps
+//   thr <kind> <n> <reps>              kind: sub lam grp inv cpy cpd cpj reap  -> ran counts and finished() after join, worst over reps
 //   sem <ops>                          p = post, w = trywait  (single thread)  -> successes and final value
 //   semc <prod> <cons> <k>             concurrent posts and blocking waits, all must return
 //   cond <waiters> <reps>              documented condition-variable protocol, every waiter must return
@@ -104,6 +104,20 @@ static std::string thrOnce(const std::string& kind, int n)
 			Array<Thread> v; v << c;
 			fin[i] = (b.finished() && c.finished() && v[0].finished() && a.finished()) ? 1 : 0;
 		}
+	}
+	else if (kind == "reap") {
+		// an owner that never joins: it polls finished() and deletes the thread object as soon as it is true
+		// (n reapers side by side, so that workers do get descheduled between their last steps)
+		std::vector<std::thread> owners;
+		volatile int* fp = (volatile int*)&fin[0];
+		for (int i = 0; i < n; i++) owners.push_back(std::thread([r, fp, i]() {
+			SubThread* w = new SubThread; w->ran = r + i;
+			w->start();
+			while (!w->finished()) {}
+			fp[i] = w->finished() ? 1 : 0;
+			delete w;
+		}));
+		for (int i = 0; i < n; i++) owners[i].join();
 	}
 	else if (kind == "grp") {
 		ThreadGroup<SubThread> g;
